@@ -52,6 +52,8 @@ def r1(ctx):
                  f"`{b.id}` uses Fs primitives {extra} itself instead of delegating to the std shim: the tokio API can return something the std API would not")
     ctx.floor(R, 40)
     C18.r4(ctx)
+    if ctx.config in ("all", "fs_iou"):
+        C18.r1(ctx)   # a ring operation takes effect at most once: a cancelled op is taken out of its pool and never executed
 
 
 def r2(ctx):
